@@ -546,6 +546,27 @@ theorem C06_api_list_shows_configured (rs : List Raw) (ops : List TableOp) :
   rw [runTable_prepare]
   simp [Spec.listOK, listTable]
 
+/-- Evaluation is atomic with respect to table updates: the result of a lookup
+that runs concurrently with a history of table states is the result for the
+table at ONE instant — never a mixture of two states (trivial in the model,
+where the read lock spans the whole evaluation; the concurrent mode of the
+sequence harness checks it on the code: every answer seen while the update
+handler flips an entry must be an answer of the table before or after). -/
+theorem C06_evaluation_atomic (srt : Bytes → Sorter) (states : List (List Entry)) (i : Nat)
+    (h : Bytes) (q : Nat) (o : Out) (ho : evalDuring srt states i h q = some o) :
+    ∃ t ∈ states, o = processRewritesWith srt t h q ∧
+      (Spec.LowerNames t → lower h = h → Spec.specOK t h q o = true) := by
+  unfold evalDuring at ho
+  cases ht : states[i]? with
+  | none => rw [ht] at ho; cases ho
+  | some t =>
+    rw [ht] at ho
+    simp only [Option.map_some, Option.some.injEq] at ho
+    refine ⟨t, List.mem_of_getElem? ht, ho.symm, ?_⟩
+    intro hl hh
+    rw [← ho]
+    exact C06_meets_spec_lower_names srt t h q hl hh
+
 /-! ## The rewrite stage in front of the rule engines -/
 
 /-- A rewritten query never reaches the rule engines: the verdict does not
